@@ -56,11 +56,44 @@ def worker(job):
             else:
                 vbs.append(B.enc_varbind(o, TLV[k]))
                 model.append((B.oid_text(o), k, None))
-        st.update(mode=mode, vbs=vbs)
-        if op == "get":
-            out = drv.call("get", B.oid_text(REQ))
-        else:
-            out = drv.call("get_many", [B.oid_text(REQ), B.oid_text(REQ + (1,))])
+        st.update(mode="silent" if mode == "silent_burst" else mode, vbs=vbs)
+
+        def do_call(o):
+            if o == "get":
+                return drv.call("get", B.oid_text(REQ))
+            return drv.call("get_many", [B.oid_text(REQ), B.oid_text(REQ + (1,))])
+        if mode == "silent_burst":
+            # several unanswered requests in a row on ONE session: each must raise TimeoutError
+            for k, o in enumerate(["get", "get", "get_many", "get_many", "get"]):
+                out = do_call(o)
+                res["cases"] += 1
+                if not (out[0] == "exc" and out[1]["cls"] == "TimeoutError") and len(res["bad"]) < 60:
+                    res["bad"].append({"cfgkey": cfg.key(), "op": o, "mode": mode, "vec": [], "model": [],
+                                       "msg": "unanswered request number %d in a row on one session: expected TimeoutError, got %s" % (k + 1, repr(out)[:140])})
+            res["classes"]["%s:silent_burst" % op] = 1
+            continue
+        out = do_call(op)
+        if mode in ("ok", "report") and out[0] == "exc" and out[1]["cls"] == "TimeoutError":
+            # the agent did answer: load, or does the client drop this reply?  Two more attempts on a fresh session decide.
+            again = []
+            for _ in range(2):
+                drv.close()
+                st.update(mode="ok", vbs=[])
+                drv = driver.Driver(cfg, agent, timeout=1.0).create()
+                drv.call("open")
+                st.update(mode=mode, vbs=vbs)
+                again.append(do_call(op))
+            drv.close()
+            st.update(mode="ok", vbs=[])
+            drv = driver.Driver(cfg, agent, timeout=0.25).create()
+            drv.call("open")
+            if all(o[0] == "exc" and o[1]["cls"] == "TimeoutError" for o in again):
+                if len(res["bad"]) < 60:
+                    res["bad"].append({"cfgkey": cfg.key(), "op": op, "mode": mode, "vec": vec, "model": [(o, k, M.jv(py)) for o, k, py in model],
+                                       "msg": "the reply was sent but the call timed out, 3 times out of 3 (also with a 1 s timeout): the reply is dropped instead of mapped"})
+                res["cases"] += 1
+                continue
+            out = again[0] if not (again[0][0] == "exc" and again[0][1]["cls"] == "TimeoutError") else again[1]
         res["cases"] += 1
         cls = "%s:%s:%s" % (op, mode, "".join(k[0] if k != "nsi" else "i" for k in vec) if len(vec) <= 4 else "len%d" % len(vec))
         res["classes"][cls] = 1
@@ -115,6 +148,8 @@ def worker(job):
                     if not any(M.same_value(w, v) for w in want[o]):
                         bad = "get_many[%s] = %r is none of the values sent for it %r" % (o, M.jv(v), [M.jv(w) for w in want[o]])
                         break
+        if len(res.setdefault("samples", [])) < 2 and ci % 70 == 9:
+            res["samples"].append({"cfg": cfg.key(), "op": op, "mode": mode, "reply_varbinds": [(o, k, M.jv(py)) for o, k, py in model][:6], "call_returned": repr(out)[:160]})
         if bad and len(res["bad"]) < 60:
             res["bad"].append({"cfgkey": cfg.key(), "op": op, "mode": mode, "vec": vec, "msg": bad, "model": [(o, k, M.jv(py)) for o, k, py in model]})
     agent.stop()
@@ -141,12 +176,11 @@ def main():
     cfgs = rigp.base_cfgs(("sync", "async"))
     jobs = []
     for ci, cfg in enumerate(cfgs):
-        extra = [{"op": op, "mode": m, "vec": []} for op in ("get", "get_many") for m in (["silent"] * 3 + (["report"] * 5 if cfg.version == "v3" else []))]
+        extra = [{"op": op, "mode": m, "vec": []} for op in ("get", "get_many") for m in (["silent"] * 2 + ["silent_burst"] + (["report"] * 5 if cfg.version == "v3" else []))]
         cs = list(cases) + extra
         random.Random(a.seed + ci).shuffle(cs)
         for sh in range(2):
             jobs.append({"seed": a.seed * 53 + ci * 2 + sh, "cfg": cfg.to_json(), "cases": cs[sh::2]})
-    chk.sample({"reply": ["(req, NULL)", "(req, 5)", "(other, noSuchObject)"], "get_many": "{'req': 5}", "get": "SnmpError (3 varbinds)"})
     outs = runner.run_workers("checks.c07", "worker", jobs, variant="rel", timeout=3000)
     tot = 0
     for o in outs:
@@ -162,6 +196,8 @@ def main():
         for x in res["inconclusive"][:2]:
             chk.inconc(x)
         tot += res["cases"]
+        for x in res.get("samples", [])[:1]:
+            chk.sample(x, limit=5)
         for c in res["classes"]:
             chk.distinct.add(c)
         for b in res["bad"]:
